@@ -37,6 +37,71 @@ LEVEL_NOTE = ("PARTIAL by nature: the private-key file round trip (PEM serialisa
 TECHNIQUE = "Coq proof over C39 codec + permission-table model with AST-translated constants (gen/c35.py, gen/c36.py) + vm_compute differential correspondence + real-key oracle"
 
 
+ODD_PASSPHRASES = ["cafe\u0301", "Mu\u0308nchen", "\u212bngstro\u0308m", "\ufb01sh \u2460", "a\u0308\u0323\u0301", "\u1e9b\u0323",
+                   "\u00c5\u2126\ufeff", "I\u0307stanbul \u00df", b"\xff\xfe not utf-8 \x80", b"caf\xc3\xa9", b"cafe\xcc\x81"]
+
+
+def synth_cert(k, nonce, tail):
+    """A certificate-shaped blob for this key (type-cert, nonce, the key's own public fields, arbitrary rest): paramiko
+    does not validate certificates, it only stores them (public_blob) and skips the nonce to reach the key material."""
+    from paramiko.message import Message
+    m = Message(k.asbytes())
+    name = m.get_string()
+    rest = m.get_remainder()
+    return sstr(name + b"-cert-v01@openssh.com") + sstr(nonce) + rest + sstr(tail)
+
+
+def equality_grid(ctx, label, k, cls, real_cert, reload_fn, others):
+    """All objects standing for ONE key - private, public-only, with certificate A, with certificate B, built from the
+    certificate blobs, reloaded, with a comment - must be pairwise ==, never !=, hash-equal, interchangeable in sets /
+    dicts / lists; none equals an object of a DIFFERENT key, whatever certificates either side carries."""
+    from paramiko.message import Message
+    blob = k.asbytes()
+    certA = synth_cert(k, b"nonce-A" * 4, b"principal-A")
+    certB = synth_cert(k, b"nonce-B" * 4, b"principal-B, re-issued")
+    objs = [("private", k), ("public-only", cls(data=blob))]
+    for nm, cb in (("cert-A", certA), ("cert-B", certB)):
+        o = cls(data=blob)
+        o.load_certificate(Message(cb))
+        objs.append((nm + "-loaded", o))
+        objs.append((nm + "-built", cls(data=cb)))
+    if real_cert:
+        o = cls(data=blob)
+        o.load_certificate(real_cert)
+        objs.append(("bundled-cert", o))
+    if reload_fn is not None:
+        o = reload_fn()
+        o.load_certificate(Message(certB))
+        o.comment = "a comment"
+        objs.append(("reloaded-private+cert-B", o))
+    for i, (na, a) in enumerate(objs):
+        for nb, b in objs[i:]:
+            ctx.count(("eqgrid", label, na, nb), kind="eq-grid")
+            ok = (a == b) and (b == a) and not (a != b) and hash(a) == hash(b) and (a in [b]) and (b in {a}) and ({a: 1}.get(b) == 1)
+            if not ok:
+                ctx.fail("eq-not-public-material:%s" % cls.__name__,
+                         "two objects for the SAME key (%s vs %s) are not equal / hash-equal / interchangeable in containers: "
+                         "==:%s reversed:%s hash-equal:%s" % (na, nb, a == b, b == a, hash(a) == hash(b)),
+                         case={"key": label, "a": na, "b": nb, "blob": blob, "cert_a": certA, "cert_b": certB},
+                         expected="equal", observed="differs")
+                return
+    for ol, ok_ in others:
+        if ok_.asbytes() == blob:
+            continue
+        oc = type(ok_)(data=ok_.asbytes())
+        if type(ok_) is cls:
+            try:
+                oc.load_certificate(Message(synth_cert(ok_, b"nonce-A" * 4, b"principal-A")))
+            except Exception:   # noqa
+                pass
+        for na, a in objs:
+            ctx.count(("neqgrid", label, ol, na), nontrivial=False, kind="eq-grid")
+            if a == oc or oc == a or a == ok_ or (oc in [a]):
+                ctx.fail("eq-different-keys:%s" % cls.__name__, "objects of DIFFERENT keys compare equal (%s vs %s)" % (na, ol),
+                         case={"key": label, "other": ol}, expected=False, observed=True)
+                return
+
+
 def mm(ctx, *a, **k):
     """model evaluation guarded: a model / translator failure is reported, it never hides the oracle's findings"""
     try:
@@ -410,7 +475,7 @@ def run(ctx):
                 "RSA / ECDSA / Ed25519 private keys (PEM, encrypted, OpenSSH), the three bundled certificates; per key: asbytes vs "
                 "model, ~25 decoder inputs (genuine, 11 type names incl. invalid UTF-8 and cert names, truncations, curve names, "
                 "off-curve / wrong-length / degenerate points, bad RSA numbers, wrong-length Ed25519 keys, certificate blobs), "
-                "RSA-1024 keys generated until the DER length is a multiple of the PEM cipher block (full PKCS#7 padding block) plus other residues, public counterparts via data= / msg= / from_type_string, bcrypt-protected OpenSSH files (bundled + fresh, all classes) and encrypted PEM files each loaded 5-6 times in one process with right / wrong / no passphrase in right-first and wrong-first order, write_private_key_file / write_private_key into every destination state (new, existing 0644 / 0600, missing parent directory one and two levels, read-only directory) x passphrase (None, ascii, unicode, bytes, empty str, empty bytes) x umask {022, 0, 077, 027, 002}: a new file left behind never has bits outside 0600, a given passphrase never yields a key loadable without one; private write/reload with passphrases (none, ascii, "
+                "RSA-1024 keys generated until the DER length is a multiple of the PEM cipher block (full PKCS#7 padding block) plus other residues, public counterparts via data= / msg= / from_type_string, an equality / hash grid over {private, public-only, certificate A / B loaded or built from the blob, bundled certificate, reloaded+comment} objects of the same key (pairwise ==, symmetric, hash-equal, set / dict / list membership) and against other keys, passphrases that change under NFC / NFD / NFKC (combining sequences, compatibility characters) and non-UTF-8 bytes (same bytes load, any normalised variant with different bytes is refused), bcrypt-protected OpenSSH files (bundled + fresh, all classes) and encrypted PEM files each loaded 5-6 times in one process with right / wrong / no passphrase in right-first and wrong-first order, write_private_key_file / write_private_key into every destination state (new, existing 0644 / 0600, missing parent directory one and two levels, read-only directory) x passphrase (None, ascii, unicode, bytes, empty str, empty bytes) x umask {022, 0, 077, 027, 002}: a new file left behind never has bits outside 0600, a given passphrase never yields a key loadable without one; private write/reload with passphrases (none, ascii, "
                 "unicode, long, bytes; reload with same / none / wrong), and write_private_key_file under umasks {0, 022, 027, 077, "
                 "0177, 0277, 0600, 0777, random} onto new and pre-existing (0644, 0666, 0600, 0400, 0755, random) targets")
     ctx.trusted += ["cryptography PEM serialisation / encryption, RSA number and EC point validation, nacl key length check (oracles)",
@@ -481,11 +546,23 @@ def run(ctx):
                 if not (kc == k and hash(kc) == hash(k) and kc.public_blob is not None and kc.asbytes() == blob):
                     ctx.fail("eq-depends-on-certificate:%s" % cls.__name__, "loading a certificate / setting a comment changes ==, hash or asbytes",
                              case={"key": label}, expected="equal", observed="differs")
+            reload_fn = None
+            if isinstance(k, (paramiko.RSAKey, paramiko.ECDSAKey)) and k.can_sign():
+                def reload_fn(k=k, cls=cls):
+                    f = io.StringIO()
+                    k.write_private_key(f)
+                    return cls.from_private_key(io.StringIO(f.getvalue()))
+            equality_grid(ctx, label, k, cls, cert, reload_fn, [(l2, k2) for l2, k2, _ in keys if k2 is not k][:4])
             if k == None or k == blob or k != k or not (k == k):   # noqa: E711
                 ctx.fail("eq-reflexive:%s" % cls.__name__, "== is not reflexive or holds against a non-key", case={"key": label})
             # ---- private round trip with passphrases ----
             if hasattr(k, "signing_key") or isinstance(k, paramiko.RSAKey):
                 pws = [None, "pässwörd☃", rng.choice(["x", b"bytes-pw"])] + (["a" * 300, " ", "x", b"bytes-pw"] if ctx.thorough else [])
+                # passphrases that are NOT in a Unicode normal form / are changed by NFC, NFD, NFKC or case folding, combining
+                # sequences, and bytes that are not UTF-8: the bytes given when writing are the bytes needed when loading
+                odd = list(ODD_PASSPHRASES)
+                rng.shuffle(odd)
+                pws += odd if ctx.thorough else odd[:2] + [ODD_PASSPHRASES[(len(label) + ctx.seed) % 3]]
                 for pw in pws:
                     path = os.path.join(tmp, "rt")
                     if os.path.exists(path):
@@ -509,7 +586,14 @@ def run(ctx):
                         ctx.fail("private-roundtrip:%s" % cls.__name__, "a private key written out does not load back as an equal, "
                                  "signing-capable key (passphrase %r)" % (pw,), case={"key": label, "password": repr(pw)}, observed=str(sig)[:80])
                     if pw is not None:
-                        for attempt, want in ((None, PasswordRequiredException), ("wrong" if pw != "wrong" else "other", SSHException)):
+                        attempts = [(None, PasswordRequiredException), ("wrong" if pw != "wrong" else "other", SSHException)]
+                        if isinstance(pw, str):
+                            import unicodedata
+                            for form in ("NFC", "NFD", "NFKC"):
+                                v = unicodedata.normalize(form, pw)
+                                if v.encode("utf-8") != pw.encode("utf-8"):
+                                    attempts.append((v, SSHException))      # a different byte string is a wrong passphrase
+                        for attempt, want in attempts:
                             try:
                                 cls.from_private_key_file(path, attempt)
                                 got = "loaded"
